@@ -1,13 +1,877 @@
+// Runner for C48: the real private/ringbuf.Ring (and the gateway's pktRing)
+// against the Gallina model Ring / the in-Coq linearizability checker RingLin.
+//
+//	A. sequential op lists on one ring (exact results, drained content)
+//	B. concurrent histories (<= 8 goroutines, blocking and non-blocking batch
+//	   reads/writes and one Close) with invocation/response stamps; a watchdog
+//	   reports goroutines that stay blocked although the ring would let them go
+//	C. sequential op lists on a pktRing
+//
+// Unless C48_NORACE is set the runner first tries to rebuild itself with the
+// race detector and runs that binary instead (falls back to the plain run when
+// the race build is not available in time).
 package main
 
 import (
+	"encoding/binary"
+	"encoding/json"
 	"fmt"
+	"os"
+	"os/exec"
+	"path/filepath"
+	"runtime"
+	"sort"
+	"strings"
+	"sync"
+	"sync/atomic"
+	"time"
 
+	"github.com/scionproto/scion/gateway/dataplane"
 	"github.com/scionproto/scion/private/ringbuf"
+	"verifharness/internal/vgen"
 )
 
+// ---------------------------------------------------------------- ops
+
+const (
+	kWrite = iota
+	kRead
+	kClose
+)
+
+type op struct {
+	Kind  int
+	Vals  []uint64 // write: the entries
+	N     int      // read: len of the destination
+	Block bool
+	Spin  int // scheduling noise before the call (concurrent part)
+}
+
+type result struct {
+	K       int
+	Blocked bool
+	Got     []any // read: the destination prefix [:K] as returned
+}
+
+func (o op) gallina() string {
+	switch o.Kind {
+	case kWrite:
+		return vgen.App("Ring.Write", vgen.NList(o.Vals), vgen.B(o.Block))
+	case kRead:
+		return vgen.App("Ring.Read", fmt.Sprintf("%d%%nat", o.N), vgen.B(o.Block))
+	}
+	return "Ring.Close"
+}
+
+func (o op) String() string {
+	switch o.Kind {
+	case kWrite:
+		return fmt.Sprintf("W%v/%v", o.Vals, o.Block)
+	case kRead:
+		return fmt.Sprintf("R%d/%v", o.N, o.Block)
+	}
+	return "C"
+}
+
+func cellList(got []any) string {
+	out := make([]string, len(got))
+	for i, g := range got {
+		switch v := g.(type) {
+		case uint64:
+			out[i] = "(Some " + vgen.N(v) + ")"
+		case nil:
+			out[i] = "None"
+		default:
+			out[i] = "(Some 4294967295)" // foreign value: never written by the runner
+		}
+	}
+	return vgen.List(out)
+}
+
+func zlit(k int) string { return vgen.Z(int64(k)) + "%Z" }
+
+// apply executes one op on the real ring.
+func apply(r *ringbuf.Ring, o op) result {
+	switch o.Kind {
+	case kWrite:
+		es := make(ringbuf.EntryList, len(o.Vals))
+		for i, v := range o.Vals {
+			es[i] = v
+		}
+		n, b := r.Write(es, o.Block)
+		return result{K: n, Blocked: b}
+	case kRead:
+		dst := make(ringbuf.EntryList, o.N)
+		for i := range dst {
+			dst[i] = "sentinel"
+		}
+		n, b := r.Read(dst, o.Block)
+		res := result{K: n, Blocked: b}
+		if n > 0 {
+			for _, e := range dst[:min(n, len(dst))] {
+				res.Got = append(res.Got, e)
+			}
+		}
+		return res
+	}
+	r.Close()
+	return result{}
+}
+
+func newRing(c int, full bool, id string) (*ringbuf.Ring, []uint64) {
+	if !full {
+		return ringbuf.New(c, nil, id), nil
+	}
+	next := uint64(1000)
+	var init []uint64
+	r := ringbuf.New(c, func() any { v := next; next++; init = append(init, v); return v }, id)
+	return r, init
+}
+
+func initTerm(full bool, init []uint64) string {
+	if !full {
+		return "None"
+	}
+	return "(Some " + vgen.NList(init) + ")"
+}
+
+// ---------------------------------------------------------------- A. sequential
+
+type seqCase struct {
+	c    int
+	full bool
+	// draws: kind, size, wish to block; the block flag is granted only where the
+	// call cannot block
+	draws []op
+}
+
+func genSize(r *vgen.Rand, c int) int {
+	switch r.Intn(10) {
+	case 0:
+		return 0
+	case 1, 2:
+		return r.Range(0, 20)
+	case 3:
+		return c
+	case 4:
+		return c + 1
+	case 5:
+		if c > 0 {
+			return c - 1
+		}
+		return 0
+	default:
+		return r.Range(1, max(1, min(20, c)))
+	}
+}
+
+func genSeq(r *vgen.Rand) seqCase {
+	s := seqCase{c: r.Range(1, 16), full: r.Chance(1, 4)}
+	if r.Chance(1, 40) {
+		s.c = 0
+	}
+	n := r.Range(3, 24)
+	closeAt := -1
+	if r.Chance(2, 5) {
+		closeAt = r.Range(n/2, n)
+	}
+	for i := 0; i < n; i++ {
+		if i == closeAt {
+			s.draws = append(s.draws, op{Kind: kClose})
+			continue
+		}
+		o := op{Block: r.Bool()}
+		if r.Bool() {
+			o.Kind = kWrite
+			o.N = genSize(r, s.c)
+		} else {
+			o.Kind = kRead
+			o.N = genSize(r, s.c)
+		}
+		s.draws = append(s.draws, o)
+	}
+	return s
+}
+
+// boundary families, one per capacity: exact fill, exact drain, wrap at the end
+// of the slice, one past the capacity, zero-length calls, use after close.
+func boundarySeqs() []seqCase {
+	var out []seqCase
+	W := func(n int, b bool) op { return op{Kind: kWrite, N: n, Block: b} }
+	R := func(n int, b bool) op { return op{Kind: kRead, N: n, Block: b} }
+	for c := 0; c <= 16; c++ {
+		for _, a := range []int{0, 1, c / 2, c - 1, c} {
+			if a < 0 || a > c {
+				continue
+			}
+			out = append(out, seqCase{c: c, draws: []op{
+				W(a, true), R(a, true), W(c, true), W(1, false), R(c+1, true), R(1, false),
+				W(c+1, true), R(c-a, true), W(20, true), R(20, true), W(0, true), R(0, true),
+				{Kind: kClose}, W(0, true), R(0, true)}})
+			out = append(out, seqCase{c: c, full: true, draws: []op{
+				W(1, false), R(a, true), W(a+1, true), R(c, true), R(1, false), W(c, true),
+				{Kind: kClose}, R(a, false), W(1, true)}})
+		}
+	}
+	return out
+}
+
+func runSeq(run *vgen.Run, s seqCase, id int, kind string) {
+	r, init := newRing(s.c, s.full, "seq")
+	stored := len(init)
+	closed := false
+	next := uint64(1)
+	var ops []op
+	var res []result
+	hung := false
+	do := func(o op) bool {
+		done := make(chan result, 1)
+		go func() { done <- apply(r, o) }()
+		select {
+		case x := <-done:
+			ops = append(ops, o)
+			res = append(res, x)
+			switch o.Kind {
+			case kWrite:
+				if x.K > 0 {
+					stored += x.K
+				}
+			case kRead:
+				if x.K > 0 {
+					stored -= x.K
+				}
+			case kClose:
+				closed = true
+			}
+			return true
+		case <-time.After(5 * time.Second):
+			run.Violate(id, "sequential call blocked although the ring state lets it return",
+				map[string]any{"cap": s.c, "full": s.full, "ops": fmt.Sprint(ops), "blocked_op": o.String()},
+				"seq-hang")
+			hung = true
+			r.Close()
+			return false
+		}
+	}
+	for _, d := range s.draws {
+		o := op{Kind: d.Kind}
+		switch d.Kind {
+		case kWrite:
+			for i := 0; i < d.N; i++ {
+				o.Vals = append(o.Vals, next)
+				next++
+			}
+			o.Block = d.Block && (closed || len(o.Vals) == 0 || stored < s.c)
+		case kRead:
+			o.N = d.N
+			o.Block = d.Block && (closed || o.N == 0 || stored > 0)
+		}
+		if !do(o) {
+			break
+		}
+	}
+	if !hung {
+		// drain: close, read everything, then both calls must report closure
+		tail := []op{{Kind: kClose}, {Kind: kRead, N: s.c + 5, Block: true},
+			{Kind: kRead, N: 1, Block: true}, {Kind: kWrite, Vals: []uint64{next}, Block: true}}
+		for _, o := range tail {
+			if !do(o) {
+				break
+			}
+		}
+	}
+	opsT := make([]string, len(ops))
+	obsT := make([]string, len(res))
+	wraps, transfers := 0, 0
+	var desc []string
+	for i := range ops {
+		opsT[i] = ops[i].gallina()
+		obsT[i] = "(" + zlit(res[i].K) + ", " + vgen.B(res[i].Blocked) + ", " + cellList(res[i].Got) + ")"
+		desc = append(desc, fmt.Sprintf("%s=%d", ops[i], res[i].K))
+		if res[i].K > 0 {
+			transfers++
+		}
+	}
+	// non-trivial: enough entries moved to wrap around the slice at least once
+	moved := 0
+	for i := range ops {
+		if ops[i].Kind == kWrite && res[i].K > 0 {
+			moved += res[i].K
+		}
+	}
+	if s.c > 0 && moved > s.c {
+		wraps = 1
+	}
+	run.Tally(fmt.Sprintf("seq:cap%02d", s.c))
+	run.Tally(fmt.Sprintf("seq:wrapped:%v", wraps == 1))
+	run.Add(kind, vgen.App("RingLin.CSeq", fmt.Sprintf("%d%%nat", s.c), initTerm(s.full, init),
+		vgen.List(opsT), vgen.List(obsT)),
+		fmt.Sprint(s.c, s.full, desc), wraps == 1 && transfers >= 2,
+		map[string]any{"cap": s.c, "full": s.full, "ops=result": desc})
+}
+
+// ---------------------------------------------------------------- B. concurrent histories
+
+type hrec struct {
+	O        op
+	R        result
+	Inv, Ret uint64
+}
+
+type histCase struct {
+	c        int
+	full     bool
+	threads  [][]op
+	procs    int
+	hasClose bool
+}
+
+func genHist(r *vgen.Rand) histCase {
+	h := histCase{c: r.Range(1, 4), full: r.Chance(1, 5)}
+	if r.Chance(1, 4) {
+		h.c = r.Range(5, 16)
+	}
+	g := r.Range(2, 8)
+	total := r.Range(g, 14)
+	h.procs = vgen.Pick(r, 1, 2, 4, 0)
+	h.threads = make([][]op, g)
+	next := uint64(1)
+	for i := 0; i < total; i++ {
+		t := i
+		if i >= g {
+			t = r.Intn(g)
+		}
+		o := op{Block: r.Chance(3, 5), Spin: r.Intn(4)}
+		sz := r.Range(1, 3)
+		switch r.Intn(8) {
+		case 0:
+			sz = 0
+		case 1:
+			sz = r.Range(0, 20)
+		case 2:
+			sz = h.c
+		}
+		if r.Bool() {
+			o.Kind = kWrite
+			for j := 0; j < sz; j++ {
+				o.Vals = append(o.Vals, next)
+				next++
+			}
+		} else {
+			o.Kind = kRead
+			o.N = sz
+		}
+		h.threads[t] = append(h.threads[t], o)
+	}
+	if r.Chance(7, 10) {
+		// one Close, by a random goroutine at a random place
+		t := r.Intn(g)
+		at := r.Intn(len(h.threads[t]) + 1)
+		ops := append([]op{}, h.threads[t][:at]...)
+		ops = append(ops, op{Kind: kClose, Spin: r.Intn(4)})
+		h.threads[t] = append(ops, h.threads[t][at:]...)
+		h.hasClose = true
+	}
+	return h
+}
+
+const (
+	quiet   = 25 * time.Millisecond
+	confirm = 1500 * time.Millisecond
+)
+
+func canProceed(o op, rd, wr int, cl bool) bool {
+	switch o.Kind {
+	case kWrite:
+		return !(len(o.Vals) > 0 && wr == 0 && !cl)
+	case kRead:
+		return !(o.N > 0 && rd == 0 && !cl)
+	}
+	return true
+}
+
+type violation struct {
+	what string
+	desc any
+	tag  string
+}
+
+// runHist executes one history on a real ring. viol != nil: the history did not
+// complete.
+func runHist(h histCase) (recs []hrec, init []uint64, lateClose bool, viol *violation) {
+	r, init := newRing(h.c, h.full, "hist")
+	var ctr atomic.Uint64
+	g := len(h.threads)
+	state := make([]atomic.Int32, g) // 0 between calls, 1 in a call, 2 finished
+	cur := make([]atomic.Int32, g)
+	out := make([][]hrec, g)
+	start := make(chan struct{})
+	var wg sync.WaitGroup
+	for t := 0; t < g; t++ {
+		wg.Add(1)
+		go func(t int) {
+			defer wg.Done()
+			<-start
+			for i, o := range h.threads[t] {
+				for s := 0; s < o.Spin; s++ {
+					runtime.Gosched()
+				}
+				cur[t].Store(int32(i))
+				state[t].Store(1)
+				inv := ctr.Add(1)
+				x := apply(r, o)
+				ret := ctr.Add(1)
+				state[t].Store(0)
+				out[t] = append(out[t], hrec{O: o, R: x, Inv: inv, Ret: ret})
+			}
+			state[t].Store(2)
+		}(t)
+	}
+	finished := make(chan struct{})
+	go func() { wg.Wait(); close(finished) }()
+	close(start)
+	var extra []hrec
+	closed := false
+	snapshot := func() (uint64, int) {
+		fin := 0
+		for t := range state {
+			if state[t].Load() == 2 {
+				fin++
+			}
+		}
+		return ctr.Load(), fin
+	}
+	pendingStuck := func() []string {
+		rd, wr, cl := r.VerifState()
+		var s []string
+		for t := range state {
+			if state[t].Load() == 1 {
+				o := h.threads[t][cur[t].Load()]
+				if canProceed(o, rd, wr, cl) {
+					s = append(s, fmt.Sprintf("goroutine %d in %s with readable=%d writable=%d closed=%v",
+						t, o, rd, wr, cl))
+				}
+			}
+		}
+		return s
+	}
+loop:
+	for {
+		c0, f0 := snapshot()
+		select {
+		case <-finished:
+			break loop
+		case <-time.After(quiet):
+		}
+		c1, f1 := snapshot()
+		if c0 != c1 || f0 != f1 {
+			continue
+		}
+		// no progress: everybody left is blocked in a call (or the machine is slow)
+		if s := pendingStuck(); len(s) > 0 {
+			select {
+			case <-finished:
+				break loop
+			case <-time.After(confirm):
+			}
+			c2, f2 := snapshot()
+			if s2 := pendingStuck(); c2 == c1 && f2 == f1 && len(s2) > 0 {
+				viol = &violation{"lost wake-up: a call stays blocked although the ring lets it proceed",
+					map[string]any{"cap": h.c, "stuck": s2, "threads": fmt.Sprint(h.threads)}, "lost-wakeup"}
+				r.Close() // best effort to release the goroutines
+				select {
+				case <-finished:
+				case <-time.After(time.Second):
+				}
+				break loop
+			}
+			continue
+		}
+		if !closed {
+			// legitimately blocked for ever: the runner closes the ring
+			inv := ctr.Add(1)
+			r.Close()
+			ret := ctr.Add(1)
+			extra = append(extra, hrec{O: op{Kind: kClose}, Inv: inv, Ret: ret})
+			closed = true
+			lateClose = true
+		}
+	}
+	if viol != nil {
+		return nil, init, lateClose, viol
+	}
+	for t := range out {
+		recs = append(recs, out[t]...)
+	}
+	recs = append(recs, extra...)
+	sort.Slice(recs, func(i, j int) bool { return recs[i].Ret < recs[j].Ret })
+	return recs, init, lateClose, nil
+}
+
+func emitHist(run *vgen.Run, h histCase, recs []hrec, init []uint64, lateClose bool) {
+	terms := make([]string, len(recs))
+	var desc []string
+	overlaps, transfers, blocked := 0, 0, 0
+	for i, x := range recs {
+		terms[i] = vgen.App("RingLin.H", x.O.gallina(), zlit(x.R.K), cellList(x.R.Got), vgen.N(x.Inv), vgen.N(x.Ret))
+		desc = append(desc, fmt.Sprintf("[%d,%d] %s=%d%v", x.Inv, x.Ret, x.O, x.R.K, gotStr(x.R.Got)))
+		if x.R.K > 0 {
+			transfers++
+		}
+		if x.R.Blocked {
+			blocked++
+		}
+		for j := 0; j < i; j++ {
+			y := recs[j]
+			if x.Inv < y.Ret && y.Inv < x.Ret {
+				overlaps++
+			}
+		}
+	}
+	run.Tally(fmt.Sprintf("hist:goroutines:%d", len(h.threads)))
+	run.Tally(fmt.Sprintf("hist:ops:%02d", len(recs)))
+	run.Tally(fmt.Sprintf("hist:overlapping-pairs:%s", bucket(overlaps)))
+	run.Tally(fmt.Sprintf("hist:calls-that-waited:%s", bucket(blocked)))
+	run.Tally(fmt.Sprintf("hist:closed-by-watchdog:%v", lateClose))
+	run.Add("history", vgen.App("RingLin.CHist", fmt.Sprintf("%d%%nat", h.c), initTerm(h.full, init), vgen.List(terms)),
+		strings.Join(desc, ";"), overlaps > 0 && transfers > 0,
+		map[string]any{"cap": h.c, "full": h.full, "gomaxprocs": h.procs, "history": desc,
+			"waited": blocked, "closed_by_watchdog": lateClose})
+}
+
+func gotStr(got []any) string {
+	if len(got) == 0 {
+		return ""
+	}
+	return fmt.Sprint(got)
+}
+
+func bucket(n int) string {
+	switch {
+	case n == 0:
+		return "0"
+	case n <= 2:
+		return "1-2"
+	case n <= 5:
+		return "3-5"
+	case n <= 10:
+		return "6-10"
+	}
+	return ">10"
+}
+
+// ---------------------------------------------------------------- C. pktRing
+
+type pop struct {
+	Kind  int
+	V     uint64
+	Block bool
+}
+
+func runPkt(run *vgen.Run, r *vgen.Rand, id int) {
+	batch, size := dataplane.VerifPktRingSizes()
+	pr := dataplane.VerifNewPktRing()
+	n := r.Range(10, 260)
+	writeBias := r.Range(3, 8) // of 10
+	closeAt := -1
+	if r.Chance(2, 3) {
+		closeAt = r.Range(n/2, n)
+	}
+	inRing, inBuf := 0, 0
+	closed := false
+	next := uint64(1)
+	var opsT, obsT []string
+	var desc []string
+	handed := 0
+	refills := 0
+	hung := false
+	for i := 0; i < n+3 && !hung; i++ {
+		var o pop
+		switch {
+		case i == closeAt || i == n:
+			o.Kind = kClose
+		case i > n:
+			o.Kind = kRead
+			o.Block = true
+		case r.Intn(10) < writeBias:
+			o = pop{Kind: kWrite, V: next, Block: r.Bool()}
+			next++
+			o.Block = o.Block && (closed || inRing < size)
+		default:
+			o = pop{Kind: kRead, Block: r.Bool()}
+			o.Block = o.Block && (closed || inBuf > 0 || inRing > 0)
+		}
+		type pres struct {
+			k   int
+			pkt []byte
+		}
+		done := make(chan pres, 1)
+		go func() {
+			switch o.Kind {
+			case kWrite:
+				b := make([]byte, 8)
+				binary.BigEndian.PutUint64(b, o.V)
+				done <- pres{k: pr.Write(b, o.Block)}
+			case kRead:
+				p, k := pr.Read(o.Block)
+				done <- pres{k: k, pkt: p}
+			default:
+				pr.Close()
+				done <- pres{}
+			}
+		}()
+		var x pres
+		select {
+		case x = <-done:
+		case <-time.After(5 * time.Second):
+			run.Violate(id, "pktRing call blocked although it cannot block", map[string]any{"ops": desc}, "pkt-hang")
+			pr.Close()
+			hung = true
+			continue
+		}
+		cell := "None"
+		switch o.Kind {
+		case kWrite:
+			opsT = append(opsT, vgen.App("Ring.PWrite", vgen.N(o.V), vgen.B(o.Block)))
+			if x.k == 1 {
+				inRing++
+			}
+			desc = append(desc, fmt.Sprintf("W%d=%d", o.V, x.k))
+		case kRead:
+			opsT = append(opsT, vgen.App("Ring.PRead", vgen.B(o.Block)))
+			if x.k == 1 {
+				handed++
+				if inBuf == 0 {
+					m := min(inRing, batch)
+					inRing -= m
+					inBuf = m
+					refills++
+				}
+				inBuf--
+				if len(x.pkt) == 8 {
+					cell = "(Some " + vgen.N(binary.BigEndian.Uint64(x.pkt)) + ")"
+				} else if x.pkt != nil {
+					cell = "(Some 4294967295)"
+				}
+			}
+			desc = append(desc, fmt.Sprintf("R=%d%s", x.k, cell))
+		default:
+			opsT = append(opsT, "Ring.PClose")
+			closed = true
+			desc = append(desc, "C")
+		}
+		obsT = append(obsT, "("+zlit(x.k)+", "+cell+")")
+	}
+	run.Tally(fmt.Sprintf("pkt:refills:%s", bucket(refills)))
+	run.Add("pktring", vgen.App("RingLin.CPkt", vgen.List(opsT), vgen.List(obsT)),
+		strings.Join(desc, ","), handed >= 2 && refills >= 1,
+		map[string]any{"ops=result": desc})
+}
+
+// ---------------------------------------------------------------- race re-exec
+
+// tryRace rebuilds this command with -race and runs it with the same arguments.
+// Returns true when the race-enabled child produced the output.
+func tryRace(out string, tier string) (bool, string) {
+	if raceEnabled || os.Getenv("C48_NORACE") != "" {
+		return false, ""
+	}
+	must := func(err error) {
+		if err != nil {
+			fmt.Fprintln(os.Stderr, "c48:", err)
+		}
+	}
+	must(os.MkdirAll(out, 0o755))
+	bin := filepath.Join(out, "c48.race")
+	args := []string{"build", "-race", "-tags", "verif"}
+	if repo := os.Getenv("VERIF_REPO"); repo != "" && repo != "/repo" {
+		alt := filepath.Join(filepath.Dir(out), "alt.mod")
+		if _, err := os.Stat(alt); err == nil {
+			args = append(args, "-modfile="+alt)
+		}
+	}
+	args = append(args, "-o", bin, "./cmd/c48")
+	limit := 75 * time.Second
+	if tier == "thorough" {
+		limit = 15 * time.Minute
+	}
+	cmd := exec.Command("go", args...)
+	cmd.Stderr = os.Stderr
+	if err := cmd.Start(); err != nil {
+		return false, "race build could not start: " + err.Error()
+	}
+	done := make(chan error, 1)
+	go func() { done <- cmd.Wait() }()
+	select {
+	case err := <-done:
+		if err != nil {
+			return false, "race build failed: " + err.Error()
+		}
+	case <-time.After(limit):
+		_ = cmd.Process.Kill()
+		return false, "race build not finished in time (cold build cache); plain run used"
+	}
+	logp := filepath.Join(out, "race.log")
+	child := exec.Command(bin, os.Args[1:]...)
+	child.Env = append(os.Environ(), "GORACE=log_path="+logp+" exitcode=0 halt_on_error=0", "C48_NORACE=1",
+		"C48_RACE_CHILD=1")
+	child.Stdout, child.Stderr = os.Stdout, os.Stderr
+	if err := child.Run(); err != nil {
+		return false, "race-enabled run failed: " + err.Error()
+	}
+	_ = os.Remove(bin)
+	// fold the race reports into stats.json
+	logs, _ := filepath.Glob(logp + ".*")
+	var reports []string
+	for _, l := range logs {
+		b, _ := os.ReadFile(l)
+		if len(b) > 0 {
+			s := string(b)
+			if len(s) > 3000 {
+				s = s[:3000]
+			}
+			reports = append(reports, s)
+		}
+		_ = os.Remove(l)
+	}
+	sp := filepath.Join(out, "stats.json")
+	b, err := os.ReadFile(sp)
+	if err != nil {
+		return false, "race-enabled run left no stats.json"
+	}
+	var st map[string]any
+	if json.Unmarshal(b, &st) != nil {
+		return false, "stats.json unreadable"
+	}
+	st["race_detector"] = "on"
+	st["race_reports"] = len(reports)
+	if len(reports) > 0 {
+		v, _ := st["violations"].([]any)
+		v = append(v, map[string]any{"case": -1, "what": "data race reported by the Go race detector",
+			"tags": []string{"data-race"}, "desc": reports[0]})
+		st["violations"] = v
+	}
+	nb, _ := json.MarshalIndent(st, "", " ")
+	must(os.WriteFile(sp, nb, 0o644))
+	return true, ""
+}
+
+// ---------------------------------------------------------------- main
+
 func main() {
-	r := ringbuf.New(3, nil, "x")
-	n, b := r.Write(ringbuf.EntryList{1, 2, 3, 4}, false)
-	fmt.Println(n, b)
+	run := vgen.Flags("C48")
+	raceNote := "on"
+	if !raceEnabled {
+		okRace, note := tryRace(run.Out, run.Tier)
+		if okRace {
+			return
+		}
+		raceNote = "off"
+		if note != "" {
+			raceNote = "off: " + note
+		}
+	}
+	run.Imports = []string{"Model.Ring", "Model.RingLin"}
+	run.CheckFn = "RingLin.check"
+	run.DiagFn = "RingLin.diag"
+	run.CaseType = "RingLin.case"
+	run.ShardSize = 280
+	run.Rule = "A: sequential op lists on a real ringbuf.Ring (cap 0..16, batch sizes 0..21, empty or pre-filled, " +
+		"blocking flag only where the call cannot block, Close, then drained), exact (count, blocked, entries) per call; " +
+		"non-trivial = more entries written than the capacity (the indices wrapped) and >= 2 transfers. " +
+		"B: concurrent histories (2..8 goroutines, <= 15 calls, blocking and non-blocking, one Close by a goroutine or " +
+		"by the watchdog), checked inside Coq for the existence of a linearization w.r.t. the bounded FIFO; " +
+		"non-trivial = overlapping calls and >= 1 transfer. C: sequential op lists on a pktRing; non-trivial = a " +
+		"batch refill and >= 2 packets handed out"
+	run.Extra("race_detector", raceNote)
+	rng := vgen.NewRand(run.Seed)
+
+	// A. boundary families, then generated lists
+	id := 0
+	for _, s := range boundarySeqs() {
+		id++
+		if !run.Want() {
+			run.Skip()
+			continue
+		}
+		runSeq(run, s, id-1, "seq-boundary")
+	}
+	ns := run.Count(900, 150000)
+	for i := 0; i < ns; i++ {
+		r := rng.Fork(uint64(i))
+		id++
+		if !run.Want() {
+			run.Skip()
+			continue
+		}
+		runSeq(run, genSeq(r), id-1, "seq")
+	}
+
+	// C. pktRing
+	np := run.Count(60, 3000)
+	for i := 0; i < np; i++ {
+		r := rng.Fork(uint64(5000000 + i))
+		id++
+		if !run.Want() {
+			run.Skip()
+			continue
+		}
+		runPkt(run, r, id-1)
+	}
+
+	// B. concurrent histories, several at a time
+	nh := run.Count(300, 20000)
+	type slot struct {
+		h         histCase
+		recs      []hrec
+		init      []uint64
+		lateClose bool
+		viol      *violation
+		want      bool
+		id        int
+	}
+	base := id
+	slots := make([]*slot, nh)
+	for i := range slots {
+		slots[i] = &slot{h: genHist(rng.Fork(uint64(9000000 + i))), id: base + i, want: run.WantID(base + i)}
+	}
+	defProcs := runtime.GOMAXPROCS(0)
+	// group by GOMAXPROCS setting (a process-wide knob)
+	for _, procs := range []int{0, 1, 2, 4} {
+		p := procs
+		if p == 0 {
+			p = defProcs
+		}
+		runtime.GOMAXPROCS(p)
+		sem := make(chan struct{}, 6)
+		var wg sync.WaitGroup
+		for _, s := range slots {
+			if s.h.procs != procs || !s.want {
+				continue
+			}
+			wg.Add(1)
+			sem <- struct{}{}
+			go func(s *slot) {
+				defer wg.Done()
+				defer func() { <-sem }()
+				s.recs, s.init, s.lateClose, s.viol = runHist(s.h)
+			}(s)
+		}
+		wg.Wait()
+	}
+	runtime.GOMAXPROCS(defProcs)
+	for _, s := range slots {
+		if !s.want {
+			run.Skip()
+			continue
+		}
+		if s.viol != nil {
+			run.Violate(s.id, s.viol.what, s.viol.desc, s.viol.tag)
+			run.Add("history-incomplete", vgen.App("RingLin.CHist", "0%nat", "None", "[]"), fmt.Sprint(s.id), false,
+				map[string]any{"note": "history did not complete, see violations"})
+			continue
+		}
+		emitHist(run, s.h, s.recs, s.init, s.lateClose)
+	}
+	run.Finish()
 }
